@@ -109,6 +109,21 @@ type Known struct {
 	} `json:"fixed"`
 }
 
+type crashInfo struct {
+	seed   uint64
+	idx    int
+	worker int
+	exit   int
+	stderr string
+}
+
+func tailStr(s string, n int) string {
+	if len(s) > n {
+		return s[len(s)-n:]
+	}
+	return s
+}
+
 type propMeta struct {
 	Level       string
 	Rule        string
@@ -205,6 +220,7 @@ func check(args []string) int {
 
 	results := make([]*WorkerResult, *workers)
 	fails := make([]string, *workers)
+	crashes := make([]*crashInfo, *workers)
 	var wg sync.WaitGroup
 	for w := 0; w < *workers; w++ {
 		wg.Add(1)
@@ -219,6 +235,12 @@ func check(args []string) int {
 			b, err := os.ReadFile(out)
 			if err != nil {
 				fails[w] = fmt.Sprintf("worker %d exit %d, no result file\n%s", w, code, stderr)
+				if pb, perr := os.ReadFile(out + ".progress"); perr == nil {
+					var seed uint64
+					var idx int
+					fmt.Sscanf(string(pb), "%d %d", &seed, &idx)
+					crashes[w] = &crashInfo{seed: seed, idx: idx, worker: w, exit: code, stderr: stderr}
+				}
 				return
 			}
 			var r WorkerResult
@@ -301,6 +323,48 @@ func check(args []string) int {
 		} else {
 			harness = append(harness, fmt.Sprintf("violation %s did not replay in a fresh process (exit %d): %s %s", vf.Fingerprint, code, ob, stderr))
 		}
+	}
+
+	// a worker process died: an engine goroutine panicked (nothing in the harness can recover that) or the
+	// watchdog caught a spin. Re-run the seed in a fresh process; if it dies again this is a reproducible
+	// crash/hang of the engine on wire input, which is what C09 forbids. For other properties it is
+	// reported as infrastructure failure (exit 2).
+	for _, ci := range crashes {
+		if ci == nil || exit == 1 {
+			continue
+		}
+		tmp, _ := os.CreateTemp(scratch, "crash-out-")
+		code, stderr := runWorker(worker, map[string]string{"VERIF_PROP": id, "VERIF_TIER": *tier, "VERIF_ONESEED": strconv.FormatUint(ci.seed, 10), "VERIF_WATCHDOG_TICKS": "6"}, tmp)
+		tmp.Close()
+		if code == 0 {
+			harness = append(harness, fmt.Sprintf("worker %d died (exit %d) in run %d seed %d but the seed does not reproduce it in a fresh process", ci.worker, ci.exit, ci.idx, ci.seed))
+			continue
+		}
+		if id != "C09" {
+			harness = append(harness, fmt.Sprintf("worker %d: engine crash/hang reproducible with seed %d (exit %d):\n%s", ci.worker, ci.seed, code, tailStr(stderr, 3000)))
+			continue
+		}
+		kind := "C09/crash"
+		if code == 3 {
+			kind = "C09/hang"
+		}
+		rf := map[string]any{"property": id, "tier": *tier, "seed": ci.seed, "batch_seed": seed, "worker": ci.worker, "run_index": ci.idx,
+			"generate": true, "fingerprint": kind, "detail": "worker process died while the engine handled wire input: " + tailStr(stderr, 4000)}
+		path := filepath.Join(replayDir, fmt.Sprintf("%s-%d-%d-%d.json", id, seed, ci.worker, ci.idx))
+		rb, _ := json.MarshalIndent(rf, "", " ")
+		os.WriteFile(path, rb, 0o644)
+		violations = 1
+		exit = 1
+		violLine = fmt.Sprintf("VIOLATION property=%s replay=%s", id, path)
+		fmt.Printf("violation fingerprint: %s\n%s\n", kind, tailStr(stderr, 3000))
+		// the death is explained; do not also report it as a harness failure
+		var keep []string
+		for _, h := range harness {
+			if !strings.HasPrefix(h, fmt.Sprintf("worker %d exit", ci.worker)) {
+				keep = append(keep, h)
+			}
+		}
+		harness = keep
 	}
 
 	meta := metaFor(id)
@@ -394,8 +458,12 @@ func check(args []string) int {
 	fmt.Printf("%s tier=%s seed=%d runs=%d distinct_nontrivial=%d sim_seconds=%.0f wall=%.1fs (build %.1fs) rechecked=%d diverged=%d\n",
 		id, *tier, seed, agg.Runs, len(distinct), agg.SimSeconds, wall, buildS, agg.Rechecked, agg.Diverged)
 	if len(harness) > 0 {
-		for _, h := range harness {
-			fmt.Fprintln(os.Stderr, "HARNESS-ERROR:", h)
+		for i, h := range harness {
+			if i >= 2 {
+				fmt.Fprintf(os.Stderr, "HARNESS-ERROR: (+%d more) first line: %s\n", len(harness)-i, strings.SplitN(h, "\n", 2)[0])
+				break
+			}
+			fmt.Fprintln(os.Stderr, "HARNESS-ERROR:", tailStr(h, 3000))
 		}
 		if exit == 0 {
 			exit = 2
@@ -427,6 +495,7 @@ func replay(args []string) int {
 	var rf struct {
 		Property    string `json:"property"`
 		Fingerprint string `json:"fingerprint"`
+		Generate    bool   `json:"generate"`
 	}
 	if err := json.Unmarshal(b, &rf); err != nil {
 		die(2, "%v", err)
@@ -444,6 +513,10 @@ func replay(args []string) int {
 	fmt.Print(string(ob))
 	if code != 0 {
 		fmt.Fprintln(os.Stderr, stderr)
+		if rf.Generate && code != 2 {
+			fmt.Printf("VIOLATION property=%s replay=%s\n", rf.Property, path)
+			return 1
+		}
 		return 2
 	}
 	if strings.Contains(string(ob), "REPLAY fingerprint="+rf.Fingerprint+" ") {
